@@ -12,7 +12,7 @@
                    feasibility halving of init), SteepestDescent; save/restore inside the histories.
   spec monitors    every anchored class (SteepestDescent, Adam, CG, BFGS, L-BFGS, Rprop variants; line searches
                    Dlinmin/WolfeCubic/Backtracking; quadratics cond <= 1e4, Rosenbrock, box variants for L-BFGS and
-                   Rprop): value == re-evaluated objective (bitwise), finite, feasible, line-search methods never
+                   Rprop): value == re-evaluated objective and derivative == re-evaluated gradient (bitwise), finite, feasible, line-search methods never
                    increase, minimiser of quadratics reached within the budget table, saved-at-k/restored-into-fresh
                    instance: complete state equal and continued iterates bitwise equal.
 """
@@ -219,7 +219,7 @@ def monitor(case, out):
             if l == "W":
                 pd = kv(out[idx - 1]) if idx else {}
                 nanf = [k for k in ("pt", "val", "der", "sdir", "step", "lval") if k in pd and "nan" in pd[k]]
-                fail("saverestore-exception", idx, "write()/read() of the optimizer state threw: %s%s" % (o[4:200], ("; state before the save holds NaN in " + ",".join(nanf)) if nanf else ""))
+                fail("saverestore-exception" + ("-nan-" + "-".join(nanf) if nanf else ""), idx, "write()/read() of the optimizer state threw: %s%s" % (o[4:200], ("; the state before the save holds NaN in " + ",".join(nanf)) if nanf else ""))
             else:
                 fail("exception", idx, "the library threw: " + o[4:200])
             break
@@ -231,6 +231,8 @@ def monitor(case, out):
         total += steps_of(l)
         if not same_bits(d["val"], d["reval"]):
             fail("value-consistent", idx, "reported value %s != objective at the reported point %s (%r vs %r)" % (d["val"], d["reval"], fh(d["val"]), fh(d["reval"])))
+        if "reder" in d and not same_vec(d["der"], d["reder"]):
+            fail("derivative-consistent", idx, "stored derivative %s != gradient at the reported point %s" % (fvec(d["der"]), fvec(d["reder"])))
         if d["fin"] != "1":
             fail("finite", idx, "reported point/value not finite: %s / %s" % (d["pt"], d["val"]))
         if box and opt != "SDLS" and d["feas"] != "1":
@@ -252,7 +254,7 @@ def monitor(case, out):
         if l == "W":
             restored = True
             for k in sorted(d):
-                if k.startswith("B") and k[1:] in d and k[1:] not in ("reval", "feas", "fin"):
+                if k.startswith("B") and k[1:] in d and k[1:] not in ("reval", "reder", "feas", "fin"):
                     eq = same_vec(d[k], d[k[1:]]) if k[1:] not in ("lstype", "cnt") else d[k] == d[k[1:]]
                     # members that init leaves uninitialised are written and read back all the same
                     if not eq:
@@ -300,14 +302,16 @@ def qfrac(s):
 
 def compare(case, mo, io, stats):
     """None if the model's lines agree with the implementation's, else a message.  Exact while the harness reports ex=1."""
+    stepped = False
     for idx, (l, a, b) in enumerate(zip(case, mo, io)):
+        if l[0] in "SR": stepped = True
         if a == "-" or a == "?": continue
         if a == "RESTOREFAIL": return "line %d: model restore failed" % idx
         if b.startswith("EXC"): return "line %d: implementation threw, model has a state" % idx
         da, db = kv(a), kv(b)
         exact = db.get("ex") == "1"
         for k, va in da.items():
-            if idx == 0 and k in ("lpt", "lder", "lval"): continue      # left uninitialised by init()
+            if not stepped and k in ("lpt", "lder", "lval"): continue      # left uninitialised by init()
             if k not in db: return "line %d: implementation prints no %s" % (idx, k)
             if k == "cnt":
                 if va != db[k]: return "line %d: CG counter model %s, implementation %s" % (idx, va, db[k])
@@ -325,6 +329,11 @@ def compare(case, mo, io, stats):
                     if not abs(float(p) - q) <= TOL * sc:
                         return "line %d `%s`: %s model %r, implementation %r (tolerance %g * %g)" % (idx, l[:20], k, float(p), q, TOL, sc)
         stats["exact" if exact else "tol"] += 1
+        if "der" in da and all(qfrac(t) == 0 for t in da["der"].split(",")):
+            # the model sits on the exact minimiser (zero gradient): from here on the Armijo test of the C++ compares
+            # values that differ by rounding noise only, so its branches are no longer determined by the exact model
+            stats["stopped_at_minimiser"] = stats.get("stopped_at_minimiser", 0) + 1
+            return None
     return None
 
 
@@ -475,6 +484,7 @@ def main():
     ck.cov["samples"] = [cases[0][:4], cases[-1][:4]] if cases else []
     ck.cov["optimizer_steps"] = steps
     ck.cov["state_lines_compared_exactly"] = stats["exact"]; ck.cov["state_lines_compared_1e-9"] = stats["tol"]
+    ck.cov["comparisons_stopped_at_exact_minimiser"] = stats.get("stopped_at_minimiser", 0)
     ck.cov["classes"] = cls
     ck.cov["save_restore_points"] = sum(1 for c in cases for l in c if l == "W")
     ck.cov["convergence_runs"] = sum(1 for c in cases if c[0].split()[3] == "quad" and c[0].split()[1] in LIB_LS and "x" in c[0] and sum(steps_of(l) for l in c[1:]) >= 200)
